@@ -6,6 +6,7 @@ import (
 	"math/rand"
 	"net"
 	"path/filepath"
+	"strings"
 	"sync"
 	"time"
 
@@ -17,6 +18,7 @@ import (
 	"verif/lab/gen"
 	"verif/lab/harness"
 	"verif/lab/orch"
+	"verif/lab/vdriver"
 )
 
 // C01 Deterministic replay — metamorphic, multi-process: independent fresh processes replay the
@@ -192,6 +194,7 @@ func c01Replica(j *orch.Job, r *orch.Result) error {
 			var mu sync.Mutex
 			cnt := 0
 			failed := map[string]bool{}
+			lateFailed := map[uint32]bool{}
 			n.Fake.SetFault(func(rq harness.Req) harness.Fault {
 				if rq.Method != "raw-data" {
 					return harness.Fault{}
@@ -200,14 +203,41 @@ func c01Replica(j *orch.Job, r *orch.Result) error {
 				defer mu.Unlock()
 				cnt++
 				k := fmt.Sprint(rq.Cur) // at most one failure per block: the retry must get through
-				if cnt%29 == 0 && !failed[k] {
+				if cnt%29 == 0 && !failed[k] && !lateFailed[uint32(rq.Cur)] {
 					failed[k] = true
 					r.Count("entry_requests_failed_once", 1)
 					return harness.Fault{Kind: harness.RPCError}
 				}
 				return harness.Fault{}
 			})
+			// ... and its database refuses the last statement of every fifth block once (everything of the block has
+			// been executed, the transaction is rolled back, the same process applies the block again)
+			vdriver.Set(&vdriver.Hooks{Decide: func(ev *vdriver.Event) (vdriver.Action, time.Duration) {
+				if !ev.InTx || ev.Kind != vdriver.KExec || !strings.HasPrefix(ev.SQL, "REPLACE INTO pn_metadata") || len(ev.Args) != 2 {
+					return vdriver.Proceed, 0
+				}
+				var bs struct{ Synced uint32 }
+				var raw []byte
+				switch x := ev.Args[1].(type) {
+				case []byte:
+					raw = x
+				case string:
+					raw = []byte(x)
+				}
+				if json.Unmarshal(raw, &bs) != nil || bs.Synced == 0 {
+					return vdriver.Proceed, 0
+				}
+				mu.Lock()
+				defer mu.Unlock()
+				if bs.Synced%5 == 2 && !lateFailed[bs.Synced] && !failed[fmt.Sprint(bs.Synced)] {
+					lateFailed[bs.Synced] = true
+					r.Count("blocks_applied_twice_after_a_late_failure", 1)
+					return vdriver.FailInstead, 0
+				}
+				return vdriver.Proceed, 0
+			}})
 		}
+		ro.Wrap = true
 	}
 	res, err := Replay(c, ro)
 	if err != nil {
@@ -227,7 +257,7 @@ func checkC01(c *Ctx) *orch.Outcome {
 		"(plus oversubscribed bank rows and >100-entry blocks, counted separately). Distinct = (chain seed, replica configuration)."
 	o.Assumptions = []string{
 		"schedules and hash seeds are sampled (fresh processes, GOMAXPROCS 1/2/16, randomized upstream response delays, TZ), not enumerated",
-		"every third replica's fake factomd fails every 29th entry request once (the block is retried)",
+		"every third replica's fake factomd fails every 29th entry request once, and its database refuses the last statement of every fifth block once (the block is rolled back and applied again by the same process)",
 		"every third replica also answers read-only API requests (rich lists, issuance, rates, sync status) between blocks, one at a time",
 		"averaging window shortened to 12 blocks (node.AveragePeriod) so that PIP-10 conversions execute in compressed chains",
 		"era heights compressed (order and equalities of mainnet kept)",
